@@ -9,6 +9,10 @@ canonical short and long text, long/short mutually inverse and idempotent).
 Values and extensions also carry ':' in the first / a middle / the last '/'-separated piece (a colon behind the first slash
 never is a namespace separator).  History part (rt/c03_history.py): the same texts converted in bulk under schema S1, S2, S1
 again give what each schema defines (tags that moved between bundled versions), whatever was converted before.
+Table part (rt/c03_table.py): TabularInput / SpreadsheetInput / BaseInput built from DataFrames and TSV text, their HED columns holding
+annotations of tags in every spelling with values, extensions, namespace prefixes, n/a and empty cells; convert_to_short /
+convert_to_long of the input object convert every cell exactly as the string level converts it, are mutually inverse and
+idempotent, and leave the other columns alone.
 """
 import json
 import multiprocessing
@@ -27,6 +31,9 @@ COLON_VALUES = [("value:colon-in-first-piece", "/run:01/part-2"), ("value:colon-
                 ("value:colon-in-last-piece", "/a/b/c:3"), ("value:time", "/08:30"), ("value:time-then-piece", "/08:30/x")]
 EXT_TERMS = ["Ext-X9q", "Sub_zQ"]
 QUICK_TAGS_PER_SCHEMA = 250
+# configurations of the table part in the quick tier (thorough: all), generated schemas always
+TABLE_QUICK = ("8.3.0", "score_2.0.0", "merged testlib_2.0.0+score_1.1.0", "prefixed sc:score_1.1.0",
+               "group 8.3.0 + ts:testlib_2.0.0 + sc:score_2.0.0")
 CASES = ("asis", "lower", "upper", "swap")
 
 # (label, argument of load_schema_version, xml files that make up the vocabulary of each member in load order)
@@ -422,6 +429,10 @@ def run(w: Workload):
     from rt.c03_history import run_history
     run_history(w, load, vocabulary)
 
+    from rt import c03_table
+    c03_table.configure(load, vocabulary, generate_schema_xml)
+    table_units = c03_table.plan(w, configs, TABLE_QUICK)
+
     units = []
     per_config = []
     for label, spec, files, members_vocab in configs:
@@ -443,6 +454,23 @@ def run(w: Workload):
                     w.fail(clause, r["input"], r["observed"], r["expected"])
                 for _ in range(cnt - len(recs)):
                     w.fail(clause, None)
+        for unit, res in zip(table_units, pool.imap(c03_table.work, table_units)):
+            for k in res["keys"]:
+                w.case(key=k, sample={"case": k} if (w.evaluations % 53 == 0 and len(w.samples) < 8) else None)
+            for clause in sorted(res["fails"]):
+                cnt, recs = res["fails"][clause]
+                for r in recs:
+                    w.fail(clause, r["input"], r["observed"], r["expected"])
+                for _ in range(cnt - len(recs)):
+                    w.fail(clause, None)
+            w.part("table " + unit[0], cases=res["cases"], exhaustive=False,
+                   bound="%d tags (deepest, roots, value-taking, random) x 3 written texts each (short / partial / full spelling x 4 letter "
+                         "cases x no suffix / value / placeholder / value with ':' / one- and two-term extension, with the member's "
+                         "prefix) put into %d cells (9 group shapes x 4 blank patterns, every text twice; n/a, empty, unknown tag, "
+                         "{reference}) x %d tables of <= %d rows of 6 kinds (TabularInput from DataFrame / TSV text / with a sidecar "
+                         "column, SpreadsheetInput with named and numbered tag columns, BaseInput with a mapper) x {to short first, "
+                         "to long first} x 4 conversions in a row"
+                         % (sum(len(x) for x in unit[3]), res["cells"], res["tables"], c03_table.ROWS_PER_TABLE))
     for label, n_tags, n_all, n_cases, n_spellings in per_config:
         w.part(label, cases=n_cases, bound="%d of %d tags x all suffix-path spellings x 8 (value nodes) or 6 (others) suffix kinds x <= 4 case variants"
                % (n_tags, n_all), exhaustive=(n_tags == n_all), tag_texts_resolved=n_spellings)
@@ -453,6 +481,8 @@ def run(w: Workload):
         "(reported by the code as invalid parent, a C01 matter)",
         "schemas loaded from mediawiki / TSV files or from a URL; the generated schemas reuse the non-tag sections of 8.3.0",
         "the namespace prefix written in another letter case, and texts with a prefix no schema of the group has",
+        "table part: .xlsx files; BaseInput.shrink_defs / expand_defs (not form conversions; outside the statement); tables whose HED "
+        "columns come from a sidecar's value / categorical entries (those cells are keys or values, not annotations)",
     ]
     w.assumptions += [
         "the bundled XML files are read with xml.etree; a tag's long name is the '/'-join of the <name> texts on its <node> path",
@@ -468,6 +498,10 @@ def replay(w: Workload, case: dict):
     if case["clause"].startswith("C03.history") or "pair" in inp:
         from rt.c03_history import replay_history
         return replay_history(w, case, load, vocabulary)
+    if inp.get("table"):
+        from rt import c03_table
+        c03_table.configure(load, vocabulary, generate_schema_xml)
+        return c03_table.replay_table(w, case)
     spec = inp["spec"]
     spec = tuple(spec) if isinstance(spec, list) else spec
     files = None
